@@ -23,6 +23,7 @@ from inscripta.biocantor.io.genbank.constants import (
     GenbankFlavor,
 )
 from inscripta.biocantor.io.ncbi.exc import TblExportException
+from inscripta.biocantor import SequenceType
 from inscripta.biocantor.location import Location
 from inscripta.biocantor.location.location_impl import CompoundInterval
 from inscripta.biocantor.location.strand import Strand
@@ -264,9 +265,13 @@ class MRNATblFeature(TblFeature):
         transcript: TranscriptInterval,
         cds_feature: "CDSTblFeature",
     ):
+        # must use _location here and not chromosome_location due to caching!
+        location = transcript._location
+        if location.has_ancestor_of_type(SequenceType.SEQUENCE_CHUNK):
+            # the table is written in chromosome coordinates (as the gene and CDS rows are), also for a transcript on a chunk
+            location = location.lift_over_to_first_ancestor_of_type(SequenceType.CHROMOSOME)
         super().__init__(
-            # must use _location here and not chromosome_location due to caching!
-            transcript._location,
+            location,
             start_is_incomplete=cds_feature.start_is_incomplete,
             end_is_complete=cds_feature.end_is_complete,
             is_pseudo=cds_feature.is_pseudo,
